@@ -42,6 +42,37 @@ TB_STUB = ['kani::stub of bytes::BytesMut::reserve_inner by a function that asse
            'real function is a proof obligation), used to keep the re-allocation path out of the formula']
 
 PROPS = {
+    'C19': dict(
+        level='proof',
+        verus_units=['client_discoverer'],
+        trusted_base=TB_VERUS + [
+            'ObjectUuid / ObjectCookie / ServiceUuid / ServiceCookie are opaque Copy keys with structural equality and the hash-key '
+            'model; vstd specifications of HashMap; assumed std specification of HashMap::get_mut',
+            'the event stream handed to an entry is one the bus admits (creations of things that do not exist, destructions of '
+            'things that do, with their current cookie; a service lives inside its object): that is C10 for the broker side and is a '
+            'PRECONDITION here',
+        ],
+        assumptions=[
+            'PARTIAL claim. Decided: the entry kind "one specific object, no services required" completely (fold step over the '
+            'abstract bus); for the kind "any object with the given services" only the local contracts of object_created, '
+            'object_destroyed and service_destroyed',
+        ],
+        undecided_clauses=[
+            'entry kinds with required services: SpecificObjectWithServices::{service_created, service_destroyed} and '
+            'AnyObject::service_created use `.values().all(..)` (iterator adapter, closure): not ingestible, so "carries all services the '
+            'entry requires" is not decided',
+            'convergence once activity stops, the Stream implementation (poll_next, restart, current-only mode), pending '
+            'notifications, lifetimes (Lifetime / LifetimeScope futures), wait_for / find: async, schedules - outside this family',
+            'the dispatch Discoverer::handle_event over several entries (iterator adapters)',
+        ],
+        explanation='safety core of the discoverer for the simplest entry kind, on the verbatim text of '
+                    'aldrin/src/discoverer/specific_without_services.rs: for an abstract bus (live objects and services) and ANY event '
+                    'the bus admits, if the entry mirrors the bus before the event it mirrors the bus after it (it reports its object, '
+                    'with the current cookie, exactly while the object exists), and it emits a Created / Destroyed event for its key '
+                    'and the object id exactly when what it reports changes; induction over the stream gives "reports exactly the '
+                    'objects that currently exist and match, one event per transition, in order". Plus local contracts of three '
+                    'AnyObject handlers.',
+    ),
     'C11': dict(
         level='proof',
         verus_units=['broker_channel', 'broker_service', 'broker_conn_state', 'broker_object', 'broker_serial_map', 'broker_bus_listener',
